@@ -777,6 +777,23 @@ namespace hs
                             r.fam, r.array ? "array" : "node", r.array ? r.count * r.size : r.size,
                             f.type.c_str());
             }
+            // an arena on a source with a known number of blocks (static storage, reserved virtual memory) may only run
+            // out when it holds them all (in use or cached)
+            if (c.kind == K_ARENA && !fired && heap.stats_too_large_ == too_large0 && !S.failure_seen)
+            {
+                bool        st = S.o->name.size() > 3 && S.o->name.compare(S.o->name.size() - 3, 3, ".ST") == 0;
+                bool        vb = S.o->name.size() > 3 && S.o->name.compare(S.o->name.size() - 3, 3, ".VB") == 0;
+                std::size_t total = st ? S.cfg.storage_size / S.cfg.block_size : vb ? S.cfg.no_blocks : 0;
+                std::size_t held  = S.o->reading(7);
+                shadow_.for_each([&](Alloc& a) { held += a.obj == idx ? 1 : 0; });
+                if (total && held < total)
+                    violate("C05,C03,C18", "fixed_source_exhausted_early",
+                            "allocate_block failed with %s although the arena holds %zu of the %zu blocks its %s "
+                            "source has",
+                            f.type.c_str(), held, total, st ? "static" : "virtual memory");
+                if (total)
+                    stats().hit("reach.fixed_source_exhausted");
+            }
             // a request that failed because its one upstream call failed consumed nothing: the announced size
             // of the next growth must be what it was
             if (c.kind == K_TEMP && fired && calls == 1 && S.o->reading(1) != temp_next0)
